@@ -761,7 +761,9 @@ def run(ctx):
     ctx.rule = ("T: every (status, test list <= 2) of TestSuite; I: (carrier custom/pvd/xdmf (HDF5, XML, binary heavy data), n, initial cursor, number of generators, "
                 "history of next() calls: sequential full/abandoned iterations or interleaved); M: (options, lengths, initial "
                 "cursors, prescribed per-step suites incl. one deviating step at first/last/random position); F: (result and "
-                "reference step variants, options) through the CLI on generated .pvd/.vtu files; non-trivial = at least one "
+                "reference step variants, options) through the CLI on generated .pvd/.vtu files; F2/FX/I2 (phase 6 G): re-written paths, "
+                "same file in both roles, n > 10, repeated pieces, piece paths, time values, per-step meshes, XDMF through the CLI, "
+                "several live sequence objects with unrelated reads in between; non-trivial = at least one "
                 "step is iterated/compared; distinct = distinct model input line (+ carrier / file variants)")
     ctx.assumptions += [
         "per-step comparison outcome (`_compare_field_data`) is an external fact: prescribed (part M) or measured with the "
